@@ -117,6 +117,7 @@ struct Running {
     out: PathBuf,
     last: PathBuf,
     last_index_seen: i64,
+    last_beat_seen: String,
     last_progress: Instant,
 }
 
@@ -277,6 +278,7 @@ pub fn run<P: Property>(args: RunArgs) -> ! {
     let mut next_file = 0u64;
     let mut abort_keys_seen = HashSet::<String>::new();
     let mut lost_cases = 0u64;
+    let mut not_run = 0u64;
     let strategy = p.strategy(tier);
 
     let mut handle_dead_case = |index: u64, case: serde_json::Value, first: String, violations: &mut Vec<(String, PathBuf, String)>, merged: &mut WorkerResult, infra: &mut Vec<String>| {
@@ -355,7 +357,7 @@ pub fn run<P: Property>(args: RunArgs) -> ! {
                 .stderr(if std::env::var("VERIF_WORKER_STDERR").is_ok() { Stdio::inherit() } else { Stdio::null() })
                 .spawn()
                 .expect("spawn worker");
-            running.push(Running { child, lo, hi, out, last, last_index_seen: -1, last_progress: Instant::now() });
+            running.push(Running { child, lo, hi, out, last, last_index_seen: -1, last_beat_seen: String::new(), last_progress: Instant::now() });
         }
         if running.is_empty() {
             break;
@@ -369,7 +371,13 @@ pub fn run<P: Property>(args: RunArgs) -> ! {
                     let r = running.swap_remove(i);
                     if st.success() {
                         match std::fs::read(&r.out).ok().and_then(|b| serde_json::from_slice::<WorkerResult>(&b).ok()) {
-                            Some(w) => merge(&mut merged, &mut digests, w),
+                            Some(w) => {
+                                merge(&mut merged, &mut digests, w);
+                                if p.fail_fast() && !merged.violations.is_empty() && !queue.is_empty() {
+                                    not_run = queue.iter().map(|(lo, hi)| hi - lo).sum();
+                                    queue.clear();
+                                }
+                            }
                             None => infra.push(format!("worker [{}, {}) left no result", r.lo, r.hi)),
                         }
                     } else {
@@ -388,13 +396,16 @@ pub fn run<P: Property>(args: RunArgs) -> ! {
                     }
                     let _ = std::fs::remove_file(&r.out);
                     let _ = std::fs::remove_file(&r.last);
+                    let _ = std::fs::remove_file(r.last.with_extension("beat"));
                     continue;
                 }
                 Ok(None) => {
                     // hang watchdog
                     let idx = read_last_index(&r.last).map(|v| v as i64).unwrap_or(-1);
-                    if idx != r.last_index_seen {
+                    let beat = std::fs::read_to_string(r.last.with_extension("beat")).unwrap_or_default();
+                    if idx != r.last_index_seen || beat != r.last_beat_seen {
                         r.last_index_seen = idx;
+                        r.last_beat_seen = beat;
                         r.last_progress = Instant::now();
                     } else if r.last_progress.elapsed() > Duration::from_secs(p.hang_secs()) {
                         let _ = r.child.kill();
@@ -470,6 +481,7 @@ pub fn run<P: Property>(args: RunArgs) -> ! {
         "ambiguous_accept_either": merged.ambiguous,
         "rejected_configs": merged.rejected_configs,
         "cases_lost_to_worker_death": lost_cases,
+        "cases_not_run_after_first_violation": not_run,
         "workers": max_workers,
     });
     if exhaustive {
